@@ -504,6 +504,9 @@ class CursorInterp(Interp):
                 continue
             if base[0] == 'seq' and idx[0] == 'const' and isinstance(idx[1], int):
                 ok = base[1] is True and idx[1] in (0, -1)
+                if not ok and isinstance(n.value, ast.Name):
+                    k_ = self.fixed_length_list(n.value.id)
+                    ok = k_ is not None and -k_ <= idx[1] < k_
                 self.eng.site('subscript', self.fd, n, ok)
                 if not ok:
                     self.eng.note('unguarded-subscript', self.realfd, n,
@@ -512,6 +515,25 @@ class CursorInterp(Interp):
                 continue
             outs.append((('unknown',), s1))
         return outs
+
+    def fixed_length_list(self, name):
+        """length of the local list `name` when the enclosing function binds it exactly once, to a list display, and
+        never resizes it (only `name[c]` reads and `name[c] = v` stores mention it); else None"""
+        fn = self.realfd.node
+        binds = [x for x in ast.walk(fn) if isinstance(x, ast.Name) and x.id == name and isinstance(x.ctx, (ast.Store, ast.Del))]
+        if len(binds) != 1 or name in {a.arg for a in ast.walk(fn) if isinstance(a, ast.arg)}:
+            return None
+        asg = getattr(binds[0], '_parent', None)
+        if not (isinstance(asg, ast.Assign) and len(asg.targets) == 1 and asg.targets[0] is binds[0]
+                and isinstance(asg.value, ast.List) and not any(isinstance(e, ast.Starred) for e in asg.value.elts)):
+            return None
+        for x in ast.walk(fn):
+            if isinstance(x, ast.Name) and x.id == name and x is not binds[0]:
+                par = getattr(x, '_parent', None)
+                if not (isinstance(par, ast.Subscript) and par.value is x and isinstance(par.slice, ast.Constant)
+                        and isinstance(par.slice.value, int) and isinstance(par.ctx, (ast.Load, ast.Store))):
+                    return None
+        return len(asg.value.elts)
 
     def ev_BinOp(self, n, st):
         outs = []
